@@ -248,7 +248,7 @@ func (c *ctxT) stanzaCase(x stz, payload []xml.Token, rnd *common.Rand) {
 	// --- start
 	line := fmt.Sprintf("start %s %s", kind, x.fields())
 	st := startOf(v)
-	r.Line(line, common.EncTok(st))
+	r.Line(line, common.EncToks(common.SortedAttrs([]xml.Token{st})))
 	r.Case(line, true, "stanza/"+kind)
 	lines := []string{r.Prop + " " + line}
 	// --- new(start(x)) = x
@@ -273,7 +273,7 @@ func (c *ctxT) stanzaCase(x stz, payload []xml.Token, rnd *common.Rand) {
 	if werr != nil {
 		r.Line(wline, "ERR")
 	} else {
-		r.Line(wline, common.EncToks(wt))
+		r.Line(wline, common.EncToks(common.SortedAttrs(wt)))
 		if len(wt) != len(payload)+2 || common.EncToks(wt[1:len(wt)-1]) != common.EncToks(payload) {
 			c.fail("wrap-payload", kind, []string{r.Prop + " " + wline}, "the payload inside the wrapped stanza differs from the payload given")
 		}
@@ -286,12 +286,12 @@ func (c *ctxT) stanzaCase(x stz, payload []xml.Token, rnd *common.Rand) {
 	if kind == "iq" {
 		rline := fmt.Sprintf("result %s %s", x.fields(), common.EncToks(payload))
 		rt, _ := common.ReadAllTokens(v.(stanza.IQ).Result(reader(payload)))
-		r.Line(rline, common.EncToks(rt))
+		r.Line(rline, common.EncToks(common.SortedAttrs(rt)))
 		c.checkSwap(x, rt, "result", []string{r.Prop + " " + rline})
 	}
 	eline := fmt.Sprintf("error %s %s %s", kind, x.fields(), e.fields())
 	et, _ := common.ReadAllTokens(errorOf(v, e.value()))
-	r.Line(eline, common.EncToks(et))
+	r.Line(eline, common.EncToks(common.SortedAttrs(et)))
 	c.checkSwap(x, et, "error", []string{r.Prop + " " + eline})
 	// UnmarshalError finds the error again
 	if len(et) > 2 {
@@ -483,7 +483,7 @@ func (c *ctxT) errCase(e serr, payload []xml.Token, rnd *common.Rand) {
 		r.Line(line, "ERR")
 		return
 	}
-	r.Line(line, common.EncToks(toks))
+	r.Line(line, common.EncToks(common.SortedAttrs(toks)))
 	r.Case(line, true, "serr")
 	c.sdecLine(toks)
 	if rnd.Chance(1, 3) && len(toks) > 4 {
@@ -621,7 +621,7 @@ func (c *ctxT) stErrCase(e sterr, payload []xml.Token) {
 		r.Line(line, "ERR")
 		return
 	}
-	r.Line(line, common.EncToks(toks))
+	r.Line(line, common.EncToks(common.SortedAttrs(toks)))
 	r.Case(line, true, "sterr")
 	key := "sterr"
 	if payload != nil {
